@@ -37,7 +37,7 @@ def run(ctx):
             ctx.missing("R15.1", "translator (handle_diff) of %s" % name)
             continue
         from . import balance
-        balance.run_adapter(ctx, a, want=("bound",))
+        balance.run_adapter(ctx, a, want=("bound", "balance"))   # the bound relies on the adapter and the consumer agreeing on the view length
         n += r15_1(ctx, a)
         per_diff_length(ctx, "R15.1b", a)
         r15_34(ctx, a)
